@@ -303,6 +303,54 @@ def make_case(rng, bucket, tier):
             "mark": len(ks) + mark, "events": sorted(sim.events)}
 
 
+def merges(seqs):
+    """all interleavings of the given command sequences"""
+    def rec(pos):
+        if all(p == len(q) for p, q in zip(pos, seqs)):
+            yield []
+            return
+        for i, q in enumerate(seqs):
+            if pos[i] < len(q):
+                p2 = list(pos)
+                p2[i] += 1
+                for r in rec(p2):
+                    yield [q[pos[i]]] + r
+    return rec([0] * len(seqs))
+
+
+def exhaustive_cases():
+    """small-scope exhaustion (thorough tier): every interleaving of two or three short thread programs
+    around the eviction window, capacity 1, three pooled files"""
+    out = []
+    configs = [
+        # t1 holds file 0; t2 acquires 1 (fallback eviction of 0) while t1 releases 0 and acquires 2
+        ([["acq", 1, 0, False], ["step", 1]],
+         [[["acq", 2, 1, False], ["step", 2], ["step", 2], ["step", 2], ["rel", 2, 1]],
+          [["rel", 1, 0], ["acq", 1, 2, False], ["step", 1], ["step", 1], ["step", 1]]]),
+        # two acquirers of the same file and an evictor
+        ([["acq", 1, 0, False], ["step", 1]],
+         [[["acq", 2, 1, False], ["step", 2], ["step", 2]],
+          [["acq", 3, 1, False], ["step", 3], ["step", 3]],
+          [["rel", 1, 0], ["acq", 0, 2, False], ["step", 0]]]),
+        # close racing an acquire and an eviction
+        ([["acq", 1, 0, False], ["step", 1], ["rel", 1, 0]],
+         [[["acq", 2, 1, False], ["step", 2], ["step", 2], ["step", 2]],
+          [["close", 3, 0], ["step", 3], ["acq", 3, 0, False]],
+          [["acq", 1, 0, False], ["step", 1]]]),
+    ]
+    for pre, seqs in configs:
+        for m in merges(seqs):
+            sim = Sim(1, 10, [True] * NF)
+            ks = []
+            for k in pre + m:
+                sim.do(k)
+                ks.append(k)
+            tl, mark = tail(sim, NF, 10, 1)
+            out.append({"bucket": "exhaustive", "cap": 1, "grace": 10, "pooled": [True] * NF, "cmds": ks + tl,
+                        "mark": len(ks) + mark, "events": sorted(sim.events)})
+    return out
+
+
 def coq_cmd(k):
     op = k[0]
     if op == "acq":
@@ -327,12 +375,15 @@ class Main(Suite):
     go_cmd = "c24"
     coq_imports = "From GoGit Require Import Model.SharedFile."
     quick_n = 300
-    thorough_n = 8000
-    coq_chunk = 125
+    thorough_n = 2500
+    coq_chunk = 40
 
     def gen(self, rng, n, tier):
         buckets = [(4, "random"), (3, "nopool"), (3, "mixed"), (3, "fallback"), (3, "window"), (2, "close"), (1, "cap0")]
-        return [make_case(rng, pick_weighted(rng, buckets), tier) for _ in range(n)]
+        cases = [make_case(rng, pick_weighted(rng, buckets), tier) for _ in range(n)]
+        if tier == "thorough":
+            cases += exhaustive_cases()
+        return cases
 
     def model_expr(self, c):
         return "c24_run %d %d %s %s" % (c["cap"], c["grace"], coq_list([coq_bool(p) for p in c["pooled"]]),
